@@ -30,14 +30,7 @@ Proof.
 Qed.
 
 Lemma sph_pack_len h b : sph_pack h = Ok b -> len b = 6.
-Proof.
-  unfold sph_pack. intros E.
-  destruct (struct_pack 2 (Z.lor _ _)) as [w0|] eqn:E0; [|discriminate]. cbn [bind] in E.
-  destruct (struct_pack 2 (psc_raw _)) as [w1|] eqn:E1; [|discriminate]. cbn [bind] in E.
-  destruct (struct_pack 2 (dlen h)) as [w2|] eqn:E2; [|discriminate]. cbn [bind] in E.
-  apply Ok_inj in E. subst b. apply struct_pack_len in E0, E1, E2.
-  unfold len. rewrite !app_length, E0, E1, E2. reflexivity.
-Qed.
+Proof. intros E. unfold len. destruct (sph_pack_ok_shape _ _ E) as [_ ->]. reflexivity. Qed.
 
 Lemma tcsec_pack_len s b : tcsec_pack s = Ok b -> len b = 5.
 Proof.
